@@ -124,3 +124,64 @@ func dotSuffixLiterals(info *types.Info, stmts []ast.Stmt) []string {
 	}
 	return out
 }
+
+// littleEndianPacking checks the statements `b[K] = byte(<v> & 0xFF)` / `b[K] = byte((<v> >> S) & 0xFF)` of one arm of
+// aBasic.Bin: every index below size is written exactly once, with S == 8*K and the mask 0xFF.
+func littleEndianPacking(info *types.Info, stmts []ast.Stmt, size int64) []string {
+	var probs []string
+	seen := map[int64]int{}
+	for _, s := range stmts {
+		as, ok := s.(*ast.AssignStmt)
+		if !ok || len(as.Lhs) != 1 || len(as.Rhs) != 1 {
+			continue
+		}
+		ix, ok := as.Lhs[0].(*ast.IndexExpr)
+		if !ok {
+			continue
+		}
+		k, ok := constIntOf(info, ix.Index)
+		if !ok {
+			continue
+		}
+		conv, ok := ast.Unparen(as.Rhs[0]).(*ast.CallExpr)
+		if !ok || types.ExprString(conv.Fun) != "byte" || len(conv.Args) != 1 {
+			continue
+		}
+		seen[k]++
+		txt := types.ExprString(as.Lhs[0]) + " = " + types.ExprString(as.Rhs[0])
+		// byte(v) truncates by itself; an explicit mask must be 0xFF
+		inner := ast.Unparen(conv.Args[0])
+		if and, ok := inner.(*ast.BinaryExpr); ok && (and.Op == token.AND || and.Op == token.OR || and.Op == token.XOR) {
+			if and.Op != token.AND {
+				probs = append(probs, "`"+txt+"` combines the value with "+and.Op.String()+" instead of masking it")
+				continue
+			}
+			if m, ok := constIntOf(info, and.Y); !ok || m != 0xFF {
+				probs = append(probs, "`"+txt+"` masks with "+types.ExprString(and.Y))
+			}
+			inner = ast.Unparen(and.X)
+		}
+		shift := int64(0)
+		if sh, ok := inner.(*ast.BinaryExpr); ok {
+			if sh.Op != token.SHR {
+				probs = append(probs, "`"+txt+"` does not shift right")
+				continue
+			}
+			shift, _ = constIntOf(info, sh.Y)
+		}
+		if shift != 8*k {
+			probs = append(probs, fmt.Sprintf("`%s` takes the bits from %d up for byte %d (want %d)", txt, shift, k, 8*k))
+		}
+	}
+	for k := int64(0); k < size; k++ {
+		if seen[k] != 1 {
+			probs = append(probs, fmt.Sprintf("byte %d is written %d times", k, seen[k]))
+		}
+	}
+	for k := range seen {
+		if k >= size {
+			probs = append(probs, fmt.Sprintf("byte %d is beyond the %d bytes of the value", k, size))
+		}
+	}
+	return probs
+}
